@@ -187,6 +187,13 @@ def gen_scenario(rng, strategy=None, n_gc=None, feasible=True, features=None, ma
                 comp["batteries"]["BAT_" + g]["loss_rate"] = {
                     "relative": rng.choice([0, 0.5]), "fixed_relative": rng.choice([0, 0.1]),
                     "fixed_absolute": rng.choice([0, 0.05])}
+            if rng.random() < 0.3:
+                # a second battery at the same connector (insertion order differs from id order)
+                bp2 = rng.choice([5, 20])
+                comp["batteries"]["ABAT2_" + g] = {
+                    "parent": g, "charging_curve": [[0, bp2], [1, bp2]],
+                    "capacity": rng.choice([10, 50, 200]), "soc": rng.choice([0, 0.5, 1.0]),
+                    "min_charging_power": rng.choice([0, 0, 1]), "efficiency": rng.choice([0.95, 1.0])}
         # operator signals: limits below/above the rating, prices, windows
         k = 0
         if has_limit:
@@ -225,6 +232,7 @@ def gen_scenario(rng, strategy=None, n_gc=None, feasible=True, features=None, ma
                     "signal_time": iso(start), "start_time": iso(st), "grid_connector_id": g,
                     "target": rng.choice([0, 0.2, 0.5, 0.8]) * rating, "window": rng.random() < 0.5})
     options = {}
+    scn_cst = None
     if rng.random() < 0.3:
         options["CONCURRENCY"] = rng.choice([0.25, 0.5, 0.8, 1.0])
     if rng.random() < 0.3:
@@ -233,7 +241,17 @@ def gen_scenario(rng, strategy=None, n_gc=None, feasible=True, features=None, ma
         options["ALLOW_NEGATIVE_SOC"] = rng.random() < 0.7
         options["RESET_NEGATIVE_SOC"] = rng.random() < 0.5
     if strategy == "schedule":
-        options["LOAD_STRAT"] = "individual"
+        collective = (f["collective"] if f.get("collective") is not None else rng.random() < 0.4)
+        options["LOAD_STRAT"] = "collective" if collective else "individual"
+        if collective:
+            # core standing time: a window around the scenario (possibly over midnight) and/or no-drive days
+            h0 = (start.hour + rng.choice([0, 1, 2])) % 24
+            h1 = (h0 + rng.choice([3, 6, 9, 12])) % 24
+            cst = {"times": [{"start": [h0, rng.choice([0, 30])], "end": [h1, 0]}]}
+            if rng.random() < 0.3:
+                cst["no_drive_days"] = rng.sample(range(7), rng.randint(1, 3))
+            scn_cst = cst
+            options["warn_core_standing_time"] = rng.random() < 0.8
         for vid in vids:
             if rng.random() < 0.7:
                 ev["vehicle_events"].append({
@@ -252,6 +270,8 @@ def gen_scenario(rng, strategy=None, n_gc=None, feasible=True, features=None, ma
                       ["23:00", "01:00"]] for lvl in ["HV", "MV", "LV"]}}}}
     scn = {"scenario": {"start_time": iso(start), "interval": interval, "n_intervals": n_steps},
            "components": comp, "events": ev}
+    if scn_cst is not None:
+        scn["scenario"]["core_standing_time"] = scn_cst
     return {"scenario": scn, "strategy": strategy, "options": options, "meta": meta}
 
 
